@@ -165,6 +165,56 @@ func (c *Ctx) writerAnchors() *writerInfo {
 			wi.methods = append(wi.methods, fd)
 		}
 	})
+	// WriteTo may delegate to a more general method (return m.WriteToIndent(w, "\t")): the
+	// method that receives the writer and builds the wrapper is then the one examined
+	for hop := 0; hop < 2; hop++ {
+		holds := false
+		ast.Inspect(wi.writeTo.Body, func(n ast.Node) bool {
+			if e, ok := n.(ast.Expr); ok && namedOf(info.TypeOf(e)) == wi.wrapper {
+				holds = true
+			}
+			return true
+		})
+		if holds || len(wi.writeTo.Body.List) != 1 {
+			break
+		}
+		r, ok := wi.writeTo.Body.List[0].(*ast.ReturnStmt)
+		if !ok || len(r.Results) != 1 {
+			break
+		}
+		call, ok := unparen(r.Results[0]).(*ast.CallExpr)
+		if !ok {
+			break
+		}
+		callee := calleeOf(info, call)
+		cfd := c.funcDecl(callee)
+		if cfd == nil || callee.Pkg() == nil || callee.Pkg().Path() != pkgIR {
+			break
+		}
+		csig := callee.Type().(*types.Signature)
+		var wp *types.Var
+		for i := 0; i < csig.Params().Len() && i < len(call.Args); i++ {
+			if id, ok := unparen(call.Args[i]).(*ast.Ident); ok && info.ObjectOf(id) == wi.wParam && isIOWriter(csig.Params().At(i).Type()) {
+				wp = csig.Params().At(i)
+				// the declared parameter object (Defs) rather than the signature's
+				k := 0
+				for _, f := range cfd.Type.Params.List {
+					for _, nm := range f.Names {
+						if k == i {
+							if v, ok := info.Defs[nm].(*types.Var); ok {
+								wp = v
+							}
+						}
+						k++
+					}
+				}
+			}
+		}
+		if wp == nil {
+			break
+		}
+		wi.writeTo, wi.wParam = cfd, wp
+	}
 	// local variable holding the wrapper in WriteTo
 	ast.Inspect(wi.writeTo.Body, func(n ast.Node) bool {
 		as, ok := n.(*ast.AssignStmt)
@@ -613,6 +663,13 @@ func ruleW3(c *Ctx) []Obligation {
 				}
 			}
 		}
+		// a return before the wrapper exists (argument validation): nothing has been written, so
+		// the count is the constant 0 and the error is what is being reported
+		if len(r.Results) == 2 && r.Pos() < wi.fwVar.Pos() {
+			if tv := info.Types[r.Results[0]]; tv.Value != nil && tv.Value.String() == "0" && !(exprString(r.Results[1]) == "nil") {
+				return true
+			}
+		}
 		if len(r.Results) != 2 || !isFwField(r.Results[0], wi.fSize) || !isFwField(r.Results[1], wi.fErr) {
 			if o.Verdict == OK {
 				o.Verdict = VIOL
@@ -746,7 +803,8 @@ func ruleW5(c *Ctx) []Obligation {
 		if !ok {
 			return true
 		}
-		if cal := calleeOf(info, call); cal != nil && cal == writeToFn && len(call.Args) == 1 {
+		// WriteTo itself, or (when WriteTo delegates) the method that does the writing
+		if cal := calleeOf(info, call); cal != nil && (cal == writeToFn || cal == c.lookupFunc(pkgIR, "Module.WriteTo")) && len(call.Args) >= 1 {
 			nWriteTo++
 			if id, ok := unparen(call.Args[0]).(*ast.Ident); ok && isNamed(info.TypeOf(id), "strings", "Builder") {
 				bufObj = info.ObjectOf(id)
